@@ -217,7 +217,10 @@ class MTypeList(MTypeBase):
 
     def get_node(self) -> BaseNode:
         if isinstance(self.node, ArrayNode):
-            if len(self.node.args.arguments) == 1:
+            # Only an element that can be put back into an array later may
+            # stand for the array.
+            if len(self.node.args.arguments) == 1 and \
+                    isinstance(self.node.args.arguments[0], tuple(self.supported_element_nodes())):
                 return self.node.args.arguments[0]
         return self.node
 
